@@ -212,7 +212,7 @@ func (ex *Exec) findSentinels() {
 		if r == nil {
 			continue
 		}
-		name := "err!" + r.Pkg.Pkg.Name() + "." + r.Name()
+		name := "sentinel!" + r.Pkg.Pkg.Name() + "." + r.Name()
 		ex.sentinels[g] = &Term{S: name, Sort: SErr}
 		if infos[r].text != "" {
 			ex.sentinelText[name] = infos[r].text
